@@ -129,7 +129,16 @@ pub fn custom_ext_values() -> Vec<(String, Vec<CustomExtSpec>)> {
         ("acme".into(), vec![acme]),
         ("two".into(), vec![a.clone(), b]),
         ("nc:oid of subjectAltName".into(), vec![san_like]),
-        ("empty content".into(), vec![CustomExtSpec { content: vec![0x05, 0x00], ..a }]),
+        ("empty content".into(), vec![CustomExtSpec { content: vec![0x05, 0x00], ..a.clone() }]),
+        (
+            "nc:repeated oid among three".into(),
+            vec![
+                a.clone(),
+                CustomExtSpec { oid: vec![2, 999, 8], critical: false, content: vec![0x02, 0x01, 0x07], acme: false },
+                CustomExtSpec { oid: vec![1, 2, 3, 5], critical: false, content: vec![0x0c, 0x01, 0x78], acme: false },
+                CustomExtSpec { content: vec![0x04, 0x01, 0xff], ..a },
+            ],
+        ),
     ]
 }
 
@@ -141,7 +150,7 @@ pub fn key_id_values() -> Vec<(String, KeyIdSpec)> {
         ("pre 20".into(), KeyIdSpec::Pre((1..=20).collect())),
         ("pre 32 (high bit)".into(), KeyIdSpec::Pre((0..32u8).map(|i| 0xff - i).collect())),
         ("pre single zero byte".into(), KeyIdSpec::Pre(vec![0])),
-        ("nc:pre empty".into(), KeyIdSpec::Pre(vec![])),
+        ("pre empty".into(), KeyIdSpec::Pre(vec![])),
     ]
 }
 
